@@ -44,7 +44,7 @@ Section Domain2.
 
   (* a time lies on the snap grid relative to the change active at that time *)
   Definition time_on_gridb (init : Q) (l : list bcs) (o : Q) : bool :=
-    on_gridb tbl ((o - fst (active_at_time init l o)) / beat_len (bs_bpm (snd (active_at_time init l o)))).
+    let tc := active_at_time init l o in on_gridb tbl ((o - fst tc) / beat_len (bs_bpm (snd tc))).
 
   (* DOMAIN of the ms -> position -> ms theorems: a script in the on-grid domain of C10_offsets_on_grid and any
      list of millisecond queries at or after the first change (any order, duplicates) *)
